@@ -673,9 +673,21 @@ fn run(case: &Value) -> Vec<Value> {
             by_ft!(go)
         }
         "isotonic" => {
-            let x = cloud(400 + inst, 12, 1, -1.0, 3.5);
+            // noise 0.8 pools most points into a few blocks (instance 1); 0.25 / 0.1 keep many knots, so that
+            // the query grid -1.5 .. 4.0 of the order family falls into different interior segments
+            let noise = match inst % 3 {
+                1 => 0.8,
+                2 => 0.25,
+                _ => 0.1,
+            };
+            // the records are passed in ascending order: linfa's fit reads the knot positions from the records
+            // as given, so unsorted records yield a model whose knots are not increasing
+            let x = cloud(400 + inst, if inst % 3 == 1 { 12 } else { 16 }, 1, -1.0, 3.5);
+            let mut xs: Vec<f64> = x.iter().copied().collect();
+            xs.sort_by(|a, b| a.partial_cmp(b).unwrap());
+            let x = Array2::from_shape_vec((xs.len(), 1), xs).unwrap();
             let mut g = Lcg::new(500 + inst);
-            let y: Array1<f64> = x.outer_iter().map(|r| r[0] * 1.25 + 0.8 * g.sym()).collect();
+            let y: Array1<f64> = x.outer_iter().map(|r| r[0] * 1.25 + noise * g.sym()).collect();
             let ds = DatasetBase::new(x, y);
             let m = linfa_linear::IsotonicRegression::new().fit(&ds).expect("harness: isotonic fit");
             run_prog!(ev, inp, &m, f64, Array1<f64>, None, views);
